@@ -524,55 +524,83 @@ def wrap_rule(ctx, r):
         r.bad("build_many|word", "into_word is not applied exactly under config.word (and not whole_line)", fn=f, construct="word")
     LOOK = "regex_syntax::hir::Look::"
     # into_word
+    # the wrappers as value tables on the MIR: Hir::look(x) answers look(x), self.hir reads as "hir"; the outcome is the
+    # three-element array handed to Hir::concat. Inline `if`s, accessor methods or a helper give the same array.
+    from ..flow import table, operand_at
+
+    def rows(g, cfg_field):
+        arrs = [(bb, st) for bb, j_, st in g.stmts() if st["k"] == "assign" and st["rv"]["k"] == "agg" and st["rv"].get("array") and len(st["rv"]["ops"]) == 3]
+        if len(arrs) != 1:
+            return None
+        bb0, st0 = arrs[0]
+        from ..flow import Sccp as _Sccp, combinator_model as _cm
+        res = {}
+        for bit in (0, 1):
+            def fm(owner, name, bit=bit):
+                if owner == RCFG and name == cfg_field:
+                    return I(bit)
+                if owner == CHIR and name == "hir":
+                    return V("hir", None)
+                return None
+
+            def inner(call, argv):
+                if call.path == "regex_syntax::hir::Hir::look":
+                    return V("look", argv[0] if argv else None)
+                return None
+            sx = _Sccp(g, call_model=_cm(facts, inner, field_model=fm, callees=lambda p_: p_.startswith(CHIR + "::") and p_ != g.path),
+                       field_model=fm).run([(0, {})])
+            vals = [operand_at(sx, bb0, st0, o) for o in st0["rv"]["ops"]]
+
+            def name_(v):
+                if v is None:
+                    return "?"
+                if v[0] == "v" and v[1] == "look":
+                    return "look(%s)" % (v[2][1] if v[2] is not None and v[2][0] == "v" else "?")
+                return v[1] if v[0] == "v" else str(v)
+            res[bit] = [name_(v) for v in vals]
+        return res
     g = facts.fn(CHIR + "::into_word")
-    env = H.LetEnv(g.hir)
-    arr = [x for x in H.find(g.hir, lambda x: x.get("k") == "array" and len(x.get("xs", [])) == 3)]
-    if len(arr) != 1:
+    res = rows(g, "unicode")
+    if res is None:
         r.bad("into_word|shape", "anchor-missing: into_word does not build a 3-element concat", fn=g)
     else:
-        xs = arr[0]["xs"]
-        ok = True
         det = ""
-        for uni in (False, True):
-            val = {"self.config.unicode": uni}
-            a = H.decide(xs[0]["args"][0], val, env) if xs[0].get("k") == "call" else "?"
-            b = H.canon(xs[1], env)
-            c = H.decide(xs[2]["args"][0], val, env) if xs[2].get("k") == "call" else "?"
+        for uni in (0, 1):
             sfx = "Unicode" if uni else "Ascii"
-            if (a, b, c) != (LOOK + "WordStartHalf" + sfx, "self.hir", LOOK + "WordEndHalf" + sfx):
-                ok = False
-                det = "unicode=%s gives [%s, %s, %s]" % (uni, a, b, c)
-            if xs[0].get("k") != "call" or xs[0]["f"].get("def") != "regex_syntax::hir::Hir::look":
-                ok = False
-                det = "outer elements are not Hir::look"
-        if ok:
+            if res[uni] != ["look(WordStartHalf%s)" % sfx, "hir", "look(WordEndHalf%s)" % sfx]:
+                det = "unicode=%s gives %s" % (bool(uni), res[uni])
+        if not det:
             r.ok("into_word|table", "[WordStartHalf{U|A}, hir, WordEndHalf{U|A}] by config.unicode (2 rows)", fn=g)
         else:
             r.bad("into_word|table", "-w wrapping: %s" % det, fn=g, construct="into_word")
-    # into_whole_line
     g = facts.fn(CHIR + "::into_whole_line")
-    env = H.LetEnv(g.hir)
-    arr = [x for x in H.find(g.hir, lambda x: x.get("k") == "array" and len(x.get("xs", [])) == 3)]
-    if len(arr) != 1:
+    res = rows(g, "crlf")
+    if res is None:
         r.bad("into_whole_line|shape", "anchor-missing: into_whole_line does not build a 3-element concat", fn=g)
     else:
-        got = [H.canon(x, H.AllInline(env)) for x in arr[0]["xs"]]
-        want = ["regex_syntax::hir::Hir::look(self.line_anchor_start())", "self.hir",
-                "regex_syntax::hir::Hir::look(self.line_anchor_end())"]
-        if got == want:
-            r.ok("into_whole_line|table", "[line_anchor_start, hir, line_anchor_end]", fn=g)
+        det = ""
+        for crlf in (0, 1):
+            want = ["look(StartCRLF)", "hir", "look(EndCRLF)"] if crlf else ["look(StartLF)", "hir", "look(EndLF)"]
+            if res[crlf] != want:
+                det = "crlf=%s gives %s" % (bool(crlf), res[crlf])
+        if not det:
+            r.ok("into_whole_line|table", "[line_anchor_start, hir, line_anchor_end] by config.crlf (2 rows)", fn=g)
         else:
-            r.bad("into_whole_line|table", "-x wrapping is %s" % got, fn=g, construct="into_whole_line")
-    for name, t, fl in (("line_anchor_start", "StartCRLF", "StartLF"), ("line_anchor_end", "EndCRLF", "EndLF")):
-        g = facts.fn(CHIR + "::" + name)
-        tail = H.tail_expr(g.hir)
-        envg = H.LetEnv(g.hir)
-        a = H.decide(tail, {"self.config.crlf": True}, envg)
-        b = H.decide(tail, {"self.config.crlf": False}, envg)
-        if (a, b) == (LOOK + t, LOOK + fl):
-            r.ok(name, "crlf → %s, else %s" % (t, fl), fn=g)
+            r.bad("into_whole_line|table", "-x wrapping is %s" % det, fn=g, construct="into_whole_line")
+    LOOKV = {"line_anchor_start": ("StartCRLF", "StartLF"), "line_anchor_end": ("EndCRLF", "EndLF")}
+    for name, (t, fl) in LOOKV.items():
+        if not facts.has_fn(CHIR + "::" + name):
+            r.ok(name, "no separate %s accessor (decided by the into_whole_line table)" % name, fn=g, nontrivial=False)
+            continue
+        g2 = facts.fn(CHIR + "::" + name)
+        got = {}
+        for row, sx in table(facts, g2, fields={(RCFG, "crlf"): [I(0), I(1)]}):
+            from ..flow import ret_set
+            got[row[("field", (RCFG, "crlf"))][1]] = sorted((v[1] if v is not None and v[0] == "v" else "?") for v in ret_set(sx))
+        if got.get(1) == [t] and got.get(0) == [fl]:
+            r.ok(name, "crlf → %s, else %s" % (t, fl), fn=g2)
         else:
-            r.bad(name, "%s yields (%s, %s)" % (name, a, b), fn=g, construct=name)
+            r.bad(name, "%s yields (%s, %s)" % (name, got.get(1), got.get(0)), fn=g2, construct=name)
     # smart case truth table
     g = facts.fn(RCFG + "::is_case_insensitive")
     at = H.fn_atoms(g.hir)
